@@ -1677,7 +1677,16 @@ _add_tag2el_member(arg_t *arg, tag2el_t **tag2el, int *count, int el_no, fte_e f
 	 * Iterate over members of CHOICE type.
 	 */
 	if(arg->expr->expr_type == ASN_CONSTR_CHOICE) {
-		return _fill_tag2el_map(arg, tag2el, count, el_no, flags);
+		if(arg->expr->_mark & TM_RECURSION) {
+			FATAL("Untagged CHOICE %s at line %d contains itself, "
+				"its tags can not be determined",
+				arg->expr->Identifier, arg->expr->_lineno);
+			return -1;
+		}
+		arg->expr->_mark |= TM_RECURSION;
+		ret = _fill_tag2el_map(arg, tag2el, count, el_no, flags);
+		arg->expr->_mark &= ~TM_RECURSION;
+		return ret;
 	}
 
 	if(arg->expr->expr_type == A1TC_REFERENCE) {
